@@ -22,7 +22,11 @@ RULE = ("one case = one operation line. obj: ONE generated object (class x paren
         "strand / one-frame perturbations, chunk-vs-chromosome twin. sweep: the GUID trees + digest token streams of "
         "16 x count objects recomputed in subprocesses under other PYTHONHASHSEEDs. tokens/tokeq: "
         "_encode_object_for_digest on a (nested) value / on a value and a deep re-ordering of it. dictrt/digest: "
-        "from_dict(d).to_dict() / the digest call of the top-level object, model vs real. non-trivial = an obj/sweep "
+        "from_dict(d).to_dict() / the digest call of the top-level object, model vs real. indep: export independence of "
+        "one object and one export path (to_dict both coordinate modes, __getstate__, data-model dump, pickle, GUID "
+        "tree): two exports share no mutable container, an edited earlier export does not change a later one (equal to "
+        "its own deep copy and to a fresh twin's, GUIDs unchanged), an export after obj.qualifiers changed equals the "
+        "fresh object's. non-trivial = an obj/sweep "
         "line that built its object(s); a tokens/tokeq line holding a set or dict with >= 2 members; a qexport line "
         "with a repeated or unsorted value; any dictrt/digest line answered ok; distinct = distinct operation lines")
 EXHAUSTIVE_NOTE = ""
